@@ -75,6 +75,18 @@ for _name, _t in TRANSLATOR_TIES.items():
             _P["obligations"] = list(dict.fromkeys(_P.get("obligations", []) + [_name]))
             _P["trusted_base"] = list(dict.fromkeys(_P.get("trusted_base", []) + [_t["trusted"]]))
 
+# correspondence streams added on top of what each Cxx.py declares
+EXTRA_STREAMS = {
+    # the model's regular expressions (printer + matcher) against regexp.Compile / FindStringSubmatchIndex, and the real
+    # token matcher (verif hook VerifTokenMatcher) against tokenRe, text and indices (harness/stream_rex.go)
+    "C05": [{"name": "rex", "shards": 4}],
+    "C19": [{"name": "rex", "shards": 4}],
+}
+for _pid, _ss in EXTRA_STREAMS.items():
+    if _pid in PROPS:
+        _have = {s["name"] for s in PROPS[_pid]["streams"]}
+        PROPS[_pid]["streams"] = PROPS[_pid]["streams"] + [s for s in _ss if s["name"] not in _have]
+
 # hook commits in /repo (build tag `verif`)
 HOOK_COMMITS = ["635e10c"]
 # properties that are not claimed, with the reason
